@@ -287,7 +287,8 @@ def merge(parts):
             if a not in out["assumptions"]:
                 out["assumptions"].append(a)
         out["rule"] = out["rule"] or p["rule"]
-        out["level"] = p["level"]
+        if p["level"] != "exploration" or not out["level"]:
+            out["level"] = p["level"]  # (a passive part, which knows no level of its own, does not overrule the check's)
         if p["exhaustive"] is not None:
             out["exhaustive"] = p["exhaustive"] if out["exhaustive"] is None else (out["exhaustive"] and p["exhaustive"])
         for r in p["required"]:
